@@ -103,6 +103,7 @@ class SimCF:
         self.param_misc = []       # (t, session, cmd, index)
         self.mem_ops = []          # (t, session, 'r'|'w', mem id, addr, len/bytes, status)
         self.toc_requests = []     # (t, session, port, cmd, index)
+        self.echo_rx = []
         self.sink = []             # (t, session, port, channel, bytes) for ports 3, 6, 7, 8, 13/0
         self.protocol_errors = []  # things a real firmware would have choked on
         self.reply_delay = None    # optional fn(port, channel, data) -> extra seconds
@@ -148,6 +149,10 @@ class SimCF:
             self._param(link, channel, data)
         elif port == PORT_MEM:
             self._mem(link, channel, data)
+        elif port == 9:
+            # test echo service (C10): answers with the same channel and payload
+            self.echo_rx.append((self.sim.now, link.session, channel, data))
+            self.send(link, 9, channel, data)
         else:
             self.sink.append((self.sim.now, link.session, port, channel, data))
 
